@@ -214,6 +214,10 @@ type Net struct {
 	Engine  consensus.Engine
 	Regime  Regime
 
+	engines    []consensus.Engine
+	powCfgBase params.PowConfig
+	chainID    *big.Int
+
 	mu      sync.Mutex
 	Trace   []*Mined
 	minedBy [3]*types.WorkObject
@@ -345,45 +349,13 @@ func New(opts Options) (*Net, error) {
 		n.GenHash = gh
 		n.Nodes[lvl] = node
 	}
+	n.engines, n.powCfgBase, n.chainID = engines, powCfgBase, cfg.ChainID
 	for lvl := 0; lvl < 3; lvl++ {
-		node := n.Nodes[lvl]
-		loc := node.Loc
-		chainCfg := &params.ChainConfig{
-			ChainID:            cfg.ChainID,
-			ConsensusEngine:    "blake3",
-			Blake3Pow:          cfg.Blake3Pow,
-			Progpow:            cfg.Progpow,
-			Location:           loc,
-			DefaultGenesisHash: n.GenHash,
-			IndexAddressUtxos:  opts.IndexAddressUtxos,
-		}
-		powCfg := powCfgBase
-		powCfg.NodeLocation = loc
-		minerCfg := &core.Config{
-			QuaiCoinbase:          opts.QuaiCoinbase,
-			QiCoinbase:            opts.QiCoinbase,
-			CoinbaseLockup:        opts.CoinbaseLockup,
-			LockupContractAddress: opts.LockupContract,
-			MinerPreference:       opts.MinerPreference,
-			ExtraData:             []byte("verif"),
-			GasFloor:              12000000,
-			GasCeil:               params.LocalGasCeil,
-			GasPrice:              big.NewInt(1),
-			Recommit:              time.Second,
-		}
-		txCfg := core.DefaultTxPoolConfig
-		if opts.TxPool != nil {
-			txCfg = *opts.TxPool
-		}
-		txCfg.Journal = ""
-		txCfg.NoLocals = false
-		limit := uint64(0)
-		cacheCfg := &core.CacheConfig{TrieCleanLimit: 16, TrieDirtyLimit: 16, TrieTimeLimit: 5 * time.Minute, SnapshotLimit: 0, Preimages: true}
-		c, err := core.NewCore(node.DB, minerCfg, powCfg, &txCfg, &limit, chainCfg, []common.Location{ZoneLoc}, 0, nil, engines, cacheCfg, vm.Config{}, n.Genesis, logger)
+		c, err := n.NewCoreOn(lvl, n.Nodes[lvl].DB)
 		if err != nil {
 			return nil, fmt.Errorf("NewCore level %d: %w", lvl, err)
 		}
-		node.Core = c
+		n.Nodes[lvl].Core = c
 	}
 	// wire the hierarchy
 	sink := func(lvl int, b *types.WorkObject) {
@@ -410,6 +382,45 @@ func New(opts Options) (*Net, error) {
 		}
 	}
 	return n, nil
+}
+
+// NewCoreOn opens a core for level lvl on db with this net's configuration
+// (used for the three live nodes and for twins opened on database copies).
+func (n *Net) NewCoreOn(lvl int, db ethdb.Database) (*core.Core, error) {
+	opts := n.Opts
+	loc := Locs[lvl]
+	chainCfg := &params.ChainConfig{
+		ChainID:            n.chainID,
+		ConsensusEngine:    "blake3",
+		Blake3Pow:          params.Blake3PowLocalChainConfig.Blake3Pow,
+		Progpow:            params.Blake3PowLocalChainConfig.Progpow,
+		Location:           loc,
+		DefaultGenesisHash: n.GenHash,
+		IndexAddressUtxos:  opts.IndexAddressUtxos,
+	}
+	powCfg := n.powCfgBase
+	powCfg.NodeLocation = loc
+	minerCfg := &core.Config{
+		QuaiCoinbase:          opts.QuaiCoinbase,
+		QiCoinbase:            opts.QiCoinbase,
+		CoinbaseLockup:        opts.CoinbaseLockup,
+		LockupContractAddress: opts.LockupContract,
+		MinerPreference:       opts.MinerPreference,
+		ExtraData:             []byte("verif"),
+		GasFloor:              12000000,
+		GasCeil:               params.LocalGasCeil,
+		GasPrice:              big.NewInt(1),
+		Recommit:              time.Second,
+	}
+	txCfg := core.DefaultTxPoolConfig
+	if opts.TxPool != nil {
+		txCfg = *opts.TxPool
+	}
+	txCfg.Journal = ""
+	txCfg.NoLocals = false
+	limit := uint64(0)
+	cacheCfg := &core.CacheConfig{TrieCleanLimit: 16, TrieDirtyLimit: 16, TrieTimeLimit: 5 * time.Minute, SnapshotLimit: 0, Preimages: true}
+	return core.NewCore(db, minerCfg, powCfg, &txCfg, &limit, chainCfg, []common.Location{ZoneLoc}, 0, nil, n.engines, cacheCfg, vm.Config{}, n.Genesis, n.Logger)
 }
 
 // Stop stops all cores (clean shutdown).
@@ -692,7 +703,11 @@ func (n *Net) MineN(k int, fill bool) ([]*Mined, error) {
 // Settle runs the pending-header pipeline on the current heads so that the
 // zone executes the state of its head (state executes lazily).
 func (n *Net) Settle() error {
-	_, err := n.BuildPending(n.Heads(), false)
+	// fill=true: the pending header this leaves behind is the one the next Mine
+	// on the same heads gets back (Slice.GeneratePendingHeader returns the cached
+	// one), so it must carry the pool's transactions like the worker's own
+	// asyncStateLoop refresh does.
+	_, err := n.BuildPending(n.Heads(), true)
 	return err
 }
 
@@ -737,4 +752,46 @@ func DiffImage(a, b map[string][]byte) (added, removed, changed []string) {
 // ZoneStateAt opens the zone's account state at a block's roots.
 func (n *Net) ZoneStateAt(b *types.WorkObject) (*state.StateDB, error) {
 	return n.Zone().Core.StateAt(b.EVMRoot(), b.EtxSetRoot(), b.QuaiStateSize())
+}
+
+// Follow delivers a block mined elsewhere (its per-level wire encodings) to
+// this net, as a syncing peer would receive it, and advances the tips.
+func (n *Net) Follow(m *Mined) error {
+	var blocks [3]*types.WorkObject
+	for lvl := m.Order; lvl < 3; lvl++ {
+		if m.Wire[lvl] == nil {
+			return fmt.Errorf("no wire bytes for level %d", lvl)
+		}
+		var out interface{}
+		if err := pb.UnmarshalAndConvert(m.Wire[lvl], n.Nodes[lvl].Loc, &out, &types.WorkObjectBlockView{}); err != nil {
+			return fmt.Errorf("decode level %d: %w", lvl, err)
+		}
+		switch bv := out.(type) {
+		case *types.WorkObjectBlockView:
+			blocks[lvl] = bv.WorkObject
+		case types.WorkObjectBlockView:
+			blocks[lvl] = bv.WorkObject
+		default:
+			return fmt.Errorf("unexpected decoded type %T", out)
+		}
+	}
+	if _, err := n.Deliver(m.Order, blocks); err != nil {
+		return err
+	}
+	for lvl := m.Order; lvl < 3; lvl++ {
+		if b := n.Block(lvl, m.Hash); b != nil {
+			n.Tips[lvl] = b
+		} else {
+			n.Tips[lvl] = blocks[lvl]
+		}
+	}
+	return nil
+}
+
+// ZoneTwin opens a second zone core on a copy of a zone database image (cold
+// caches); the caller must Stop() it.
+func (n *Net) ZoneTwin(img *memorydb.Database) (*core.Core, ethdb.Database, error) {
+	db := WrapMem(img, ZoneLoc)
+	c, err := n.NewCoreOn(2, db)
+	return c, db, err
 }
